@@ -213,3 +213,14 @@ fn builder_timeout_fn_is_faithful() {
     std::mem::forget(tl);
     std::mem::forget(layer);
 }
+
+/// C20 readiness clause for the time limiter (both modes): see svc::check_readiness_passthrough.
+#[kani::proof]
+#[kani::unwind(4)]
+#[kani::stub(std::time::Instant::now, tokio::model::std_instant_now)]
+fn readiness_passthrough() {
+    let cfg = TimeLimiterConfig { timeout_source: FixedTimeout::new(any_millis(60_000)), cancel_running_future: kani::any(), event_listeners: tower_resilience_core::EventListeners::new(), name: String::new() };
+    let mut tl = TimeLimiter::new(Inner::new(svc::any_script()), Arc::new(cfg));
+    svc::check_readiness_passthrough(&mut tl);
+    std::mem::forget(tl);
+}
